@@ -158,7 +158,7 @@ func (c *TypeUnsafeVariantOperations) convertFromLong(
 		result.SetAsDateTime(time.Unix(value.AsLong(), 0))
 		return result, nil
 	case TimeSpan:
-		result.SetAsTimeSpan(time.Duration(value.AsLong() * time.Hour.Milliseconds()))
+		result.SetAsTimeSpan(time.Duration(value.AsLong()) * time.Millisecond)
 		return result, nil
 	case Boolean:
 		result.SetAsBoolean(value.AsLong() != 0)
